@@ -337,3 +337,287 @@ Lemma constructor_accepted_and_faithful w s addr v6 r o :
     ip_value (r_addr r) = Some cl /\ ip_value (r_phantom r) = Some ph /\ nproto_of (r_proto r) = Some np /\
     handle_s2d (announce r o) = DAdd (expected_session r (station_lifetime (used_after o)) cl ph np).
 Proof. intros W N O. apply handle_announce; auto. eapply new_reg_ok; eauto. Qed.
+
+(* ================================================================== the table over time *)
+Lemma drun_app st a b : drun st (a ++ b) = drun (drun st a) b.
+Proof. revert st; induction a as [|[t e] a IH]; intros st; cbn; auto. Qed.
+
+Lemma lookup_refresh_same k e m v :
+  lookup k m = Some v -> lookup k (refresh k e m) = Some (N.max v e).
+Proof.
+  induction m as [|[k' v'] m IH]; cbn; [discriminate|].
+  destruct (dkey_eqb k' k) eqn:E; cbn; rewrite E.
+  - intros H; inversion H; reflexivity.
+  - exact IH.
+Qed.
+
+Lemma lookup_refresh_other k k' e m : k' <> k -> lookup k' (refresh k e m) = lookup k' m.
+Proof.
+  intros NE. induction m as [|[k'' v] m IH]; cbn; [reflexivity|].
+  destruct (dkey_eqb k'' k) eqn:E; cbn.
+  - apply dkey_eqb_eq in E. subst k''.
+    destruct (dkey_eqb k k') eqn:E2; [apply dkey_eqb_eq in E2; congruence|reflexivity].
+  - rewrite IH. reflexivity.
+Qed.
+
+Lemma lookup_sweep_keeps k now m v : lookup k m = Some v -> now < v -> lookup k (sweep now m) = Some v.
+Proof.
+  unfold sweep. induction m as [|[k' v'] m IH]; cbn; [discriminate|].
+  destruct (dkey_eqb k' k) eqn:E.
+  - intros H L; inversion H; subst v'. assert (X : (now <? v) = true) by lia. rewrite X. cbn. rewrite E. reflexivity.
+  - intros H L. destruct (now <? v'); cbn; [rewrite E|]; auto.
+Qed.
+
+Definition not_clear (e : devent) : Prop := forall m, e = EMsg m -> handle_s2d m <> DClear.
+
+(* one event before E keeps a session whose expiry is at least E *)
+Lemma dstep_keeps now st e k v E :
+  lookup k st = Some v -> E <= v -> now < E -> not_clear e ->
+  exists v', lookup k (dstep now st e) = Some v' /\ E <= v'.
+Proof.
+  intros L G T NC.
+  assert (ADD : forall s, exists v', lookup k (add_or_update (tag s) (now + s_timeout s) st) = Some v' /\ E <= v').
+  { intros s. destruct (dkey_eqb (tag s) k) eqn:EQ.
+    - apply dkey_eqb_eq in EQ. subst k.
+      destruct (lookup_add_same (tag s) (now + s_timeout s) st) as (e' & L' & _ & UP & _).
+      exists e'. split; [exact L'|]. specialize (UP _ L). lia.
+    - exists v. split; [|exact G]. rewrite lookup_add_other; [exact L|].
+      intros ->. rewrite dkey_eqb_refl in EQ. discriminate. }
+  destruct e as [m|m|m|m|]; cbn [dstep].
+  - unfold detector_step. destruct (handle_s2d m) as [s| |] eqn:H; cbn [apply_effect].
+    + apply ADD.
+    + exfalso. exact (NC m eq_refl H).
+    + eauto.
+  - destruct (session_of m) as [s|?|]; [apply ADD|eauto|eauto].
+  - destruct (session_of m) as [s|?|]; [|eauto|eauto].
+    destruct (dkey_eqb (tag s) k) eqn:EQ.
+    + apply dkey_eqb_eq in EQ. subst k. rewrite (lookup_refresh_same _ _ _ _ L).
+      eexists; split; [reflexivity|lia].
+    + exists v. split; [|exact G]. rewrite lookup_refresh_other; [exact L|].
+      intros ->. rewrite dkey_eqb_refl in EQ. discriminate.
+  - eauto.
+  - exists v. split; [|exact G]. apply lookup_sweep_keeps; [exact L|lia].
+Qed.
+
+Lemma drun_keeps h : forall st k v E,
+  lookup k st = Some v -> E <= v ->
+  (forall t e, In (t, e) h -> t < E /\ not_clear e) ->
+  exists v', lookup k (drun st h) = Some v' /\ E <= v'.
+Proof.
+  induction h as [|[t e] h IH]; intros st k v E L G A; cbn; [eauto|].
+  destruct (A t e (or_introl eq_refl)) as [T NC].
+  destruct (dstep_keeps t st e k v E L G T NC) as (v' & L' & G').
+  eapply IH; eauto. intros t0 e0 I. apply A. right; exact I.
+Qed.
+
+(* Whatever the detector knew before (p1) and whatever else happens afterwards (p2: other
+   announcements, sweeps, packets, lookups -- anything but a Clear), a session announced at ta is
+   in the table, with an expiry of at least ta + lifetime, after every event that happens before
+   ta + lifetime. *)
+Lemma held_after_announcement st0 p1 p2 ta r o :
+  reg_ok r = true -> (o = ONew \/ o = OUpdate) ->
+  (forall t e, In (t, e) p2 -> t < ta + station_lifetime (used_after o) /\ not_clear e) ->
+  exists sess v,
+    handle_s2d (announce r o) = DAdd sess /\
+    lookup (tag sess) (drun st0 (p1 ++ (ta, EMsg (announce r o)) :: p2)) = Some v /\
+    ta + station_lifetime (used_after o) <= v /\ tracked (tag sess) (drun st0 (p1 ++ (ta, EMsg (announce r o)) :: p2)) = true.
+Proof.
+  intros OK O A.
+  destruct (handle_announce r o OK O) as (cl & ph & np & _ & _ & _ & H).
+  set (sess := expected_session r (station_lifetime (used_after o)) cl ph np) in *.
+  rewrite drun_app. cbn [drun dstep].
+  destruct (step_add ta (drun st0 p1) _ _ H) as [(e & L & G) _].
+  cbn [s_timeout sess expected_session] in G.
+  destruct (drun_keeps p2 _ _ _ _ L G A) as (v' & L' & G').
+  exists sess, v'. repeat split; auto. unfold tracked. rewrite L'. reflexivity.
+Qed.
+
+(* the station's own acceptance rule for a registration made at t_reg (C08: kept while age <= 10 min,
+   or used and age <= 6 h), and the theorem in its terms: New is announced at validation
+   (t_reg <= t_new), Update when the registration is first used *)
+Lemma forwarded_while_station_accepts c w s r o st0 p1 p2 t_reg ta :
+  sel_wf s -> In r (ingest c w s) -> (o = ONew \/ o = OUpdate) -> t_reg <= ta ->
+  (forall t e, In (t, e) p2 -> t < t_reg + station_lifetime (used_after o) /\ not_clear e) ->
+  exists sess,
+    handle_s2d (announce r o) = DAdd sess /\
+    tracked (tag sess) (drun st0 (p1 ++ (ta, EMsg (announce r o)) :: p2)) = true.
+Proof.
+  intros W I O T A.
+  destruct (held_after_announcement st0 p1 p2 ta r o (ingest_ok _ _ _ _ W I) O) as (sess & v & H & _ & _ & TR).
+  - intros t e IN. destruct (A t e IN). split; [lia|auto].
+  - eauto.
+Qed.
+
+(* ---- the converse: nothing is forwarded beyond the requested lifetimes plus one sweep period ---- *)
+Definition bounded_k (k : dkey) (E : N) (st : dmap) : Prop := forall k' v, In (k', v) st -> k' = k -> v <= E.
+Definition absent_k (k : dkey) (st : dmap) : Prop := forall v, ~ In (k, v) st.
+
+(* what an event may contribute to key k stays below E *)
+Definition adds_le (k : dkey) (E now : N) (e : devent) : Prop :=
+  match e with
+  | EMsg m => forall s, handle_s2d m = DAdd s -> tag s = k -> now + s_timeout s <= E
+  | EAdd m => forall s, session_of m = Ok s -> tag s = k -> now + s_timeout s <= E
+  | EPacket m => forall s, session_of m = Ok s -> tag s = k -> now + timeout_phantoms <= E
+  | _ => True
+  end.
+(* the event does not (re)introduce key k *)
+Definition quiet (k : dkey) (e : devent) : Prop :=
+  match e with
+  | EMsg m => forall s, handle_s2d m = DAdd s -> tag s <> k
+  | EAdd m => forall s, session_of m = Ok s -> tag s <> k
+  | _ => True
+  end.
+
+Lemma bounded_add k E k1 e st : bounded_k k E st -> (k1 = k -> e <= E) -> bounded_k k E (add_or_update k1 e st).
+Proof.
+  intros B LE. induction st as [|[k' v] st IH]; cbn.
+  - intros k2 v2 [H|[]] ->. inversion H; subst. auto.
+  - assert (B' : bounded_k k E st) by (intros a b I; apply B; right; exact I).
+    destruct (dkey_eqb k' k1) eqn:EQ.
+    + apply dkey_eqb_eq in EQ. subst k'. intros k2 v2 [H|I] ->.
+      * inversion H; subst. specialize (B k v (or_introl eq_refl) eq_refl). specialize (LE eq_refl). lia.
+      * apply (B k v2); [right; exact I|reflexivity].
+    + intros k2 v2 [H|I] ->.
+      * inversion H; subst. apply (B k v2); [left; reflexivity|reflexivity].
+      * apply (IH B' k v2 I eq_refl).
+Qed.
+
+Lemma bounded_refresh k E k1 e st : bounded_k k E st -> (k1 = k -> e <= E) -> bounded_k k E (refresh k1 e st).
+Proof.
+  intros B LE. induction st as [|[k' v] st IH]; cbn; [intros ? ? []|].
+  assert (B' : bounded_k k E st) by (intros a b I; apply B; right; exact I).
+  destruct (dkey_eqb k' k1) eqn:EQ.
+  - apply dkey_eqb_eq in EQ. subst k'. intros k2 v2 [H|I] ->.
+    + inversion H; subst. specialize (B k v (or_introl eq_refl) eq_refl). specialize (LE eq_refl). lia.
+    + apply (B k v2); [right; exact I|reflexivity].
+  - intros k2 v2 [H|I] ->.
+    + inversion H; subst. apply (B k v2); [left; reflexivity|reflexivity].
+    + apply (IH B' k v2 I eq_refl).
+Qed.
+
+Lemma bounded_sweep k E now st : bounded_k k E st -> bounded_k k E (sweep now st).
+Proof. intros B k' v I. apply B. unfold sweep in I. apply filter_In in I. tauto. Qed.
+
+Lemma dstep_bounded k E now st e : bounded_k k E st -> adds_le k E now e -> bounded_k k E (dstep now st e).
+Proof.
+  intros B A. destruct e as [m|m|m|m|]; cbn [dstep adds_le] in *.
+  - unfold detector_step. destruct (handle_s2d m) as [s| |]; cbn [apply_effect].
+    + apply bounded_add; [exact B|]. intros EQ. exact (A s eq_refl EQ).
+    + intros ? ? [].
+    + exact B.
+  - destruct (session_of m) as [s|?|]; [|exact B|exact B].
+    apply bounded_add; [exact B|]. intros EQ. exact (A s eq_refl EQ).
+  - destruct (session_of m) as [s|?|]; [|exact B|exact B].
+    apply bounded_refresh; [exact B|]. intros EQ. exact (A s eq_refl EQ).
+  - exact B.
+  - apply bounded_sweep; exact B.
+Qed.
+
+Lemma drun_bounded k E h : forall st, bounded_k k E st -> (forall t e, In (t, e) h -> adds_le k E t e) ->
+  bounded_k k E (drun st h).
+Proof.
+  induction h as [|[t e] h IH]; intros st B A; cbn; [exact B|].
+  apply IH; [apply dstep_bounded; [exact B|apply A; left; reflexivity]|].
+  intros t0 e0 I; apply A; right; exact I.
+Qed.
+
+Lemma sweep_removes k E now st : bounded_k k E st -> E <= now -> absent_k k (sweep now st).
+Proof.
+  intros B LE v I. unfold sweep in I. apply filter_In in I as [I L].
+  specialize (B k v I eq_refl). cbn in L. lia.
+Qed.
+
+Lemma absent_add k k1 e st : absent_k k st -> k1 <> k -> absent_k k (add_or_update k1 e st).
+Proof.
+  intros A NE. induction st as [|[k' v] st IH]; cbn.
+  - intros v0 [H|[]]. inversion H. congruence.
+  - assert (A' : absent_k k st) by (intros b I; apply (A b); right; exact I).
+    destruct (dkey_eqb k' k1) eqn:EQ.
+    + apply dkey_eqb_eq in EQ. subst k'. intros v0 [H|I]; [inversion H; congruence|apply (A v0); right; exact I].
+    + intros v0 [H|I]; [inversion H; subst; apply (A v0); left; reflexivity|apply (IH A' v0 I)].
+Qed.
+
+Lemma absent_refresh k k1 e st : absent_k k st -> absent_k k (refresh k1 e st).
+Proof.
+  intros A. induction st as [|[k' v] st IH]; cbn; [intros ? []|].
+  assert (A' : absent_k k st) by (intros b I; apply (A b); right; exact I).
+  destruct (dkey_eqb k' k1) eqn:EQ.
+  - intros v0 [H|I]; [inversion H; subst; apply (A v); left; reflexivity|apply (A v0); right; exact I].
+  - intros v0 [H|I]; [inversion H; subst; apply (A v0); left; reflexivity|apply (IH A' v0 I)].
+Qed.
+
+Lemma dstep_absent k now st e : absent_k k st -> quiet k e -> absent_k k (dstep now st e).
+Proof.
+  intros A Q. destruct e as [m|m|m|m|]; cbn [dstep quiet] in *.
+  - unfold detector_step. destruct (handle_s2d m) as [s| |]; cbn [apply_effect].
+    + apply absent_add; [exact A|]. exact (Q s eq_refl).
+    + intros ? [].
+    + exact A.
+  - destruct (session_of m) as [s|?|]; [|exact A|exact A].
+    apply absent_add; [exact A|]. exact (Q s eq_refl).
+  - destruct (session_of m) as [s|?|]; [|exact A|exact A]. apply absent_refresh; exact A.
+  - exact A.
+  - intros v I. unfold sweep in I. apply filter_In in I as [I _]. exact (A v I).
+Qed.
+
+Lemma drun_absent k h : forall st, absent_k k st -> (forall t e, In (t, e) h -> quiet k e) -> absent_k k (drun st h).
+Proof.
+  induction h as [|[t e] h IH]; intros st A Q; cbn; [exact A|].
+  apply IH; [apply dstep_absent; [exact A|apply (Q t); left; reflexivity]|].
+  intros t0 e0 I; apply (Q t0); right; exact I.
+Qed.
+
+Lemma absent_lookup k st : absent_k k st -> lookup k st = None.
+Proof.
+  intros A. induction st as [|[k' v] st IH]; cbn; [reflexivity|].
+  destruct (dkey_eqb k' k) eqn:EQ.
+  - apply dkey_eqb_eq in EQ. subst k'. exfalso. apply (A v). left; reflexivity.
+  - apply IH. intros b I. apply (A b). right; exact I.
+Qed.
+
+(* If everything that ever asked for key k (announcements: now + requested lifetime; packets:
+   now + 5 min) stays below E, the first sweep at or after E removes the session, and it stays
+   removed until somebody announces it again.  With sweeps every P the session is therefore gone
+   no later than E + P. *)
+Lemma dropped_at_first_sweep_after_expiry k E st0 h1 s h2 :
+  bounded_k k E st0 ->
+  (forall t e, In (t, e) h1 -> adds_le k E t e) ->
+  E <= s ->
+  (forall t e, In (t, e) h2 -> quiet k e) ->
+  lookup k (drun st0 (h1 ++ (s, ESweep) :: h2)) = None /\
+  tracked k (drun st0 (h1 ++ (s, ESweep) :: h2)) = false.
+Proof.
+  intros B A LE Q. rewrite drun_app. cbn [drun dstep].
+  assert (X : absent_k k (drun (sweep s (drun st0 h1)) h2)).
+  { apply drun_absent; [|exact Q]. eapply sweep_removes; [|exact LE]. apply drun_bounded; assumption. }
+  unfold tracked. rewrite (absent_lookup _ _ X). split; reflexivity.
+Qed.
+
+(* the announcements of a registration ask for exactly its lifetime *)
+Lemma announce_adds_le r o ta k :
+  adds_le k (ta + station_lifetime (used_after o)) ta (EMsg (announce r o)).
+Proof.
+  cbn [adds_le]. intros s H _.
+  destruct (reg_acceptable r) eqn:ACC.
+  - assert (T : s_timeout s = station_lifetime (used_after o)).
+    { unfold handle_s2d in H. destruct o; cbn [announce s2d_of op get] in H.
+      all: match type of H with context [session_of ?m] => destruct (session_of m) as [s'|?|] eqn:SO end; try discriminate.
+      all: inversion H; subst s'.
+      all: unfold session_of, s2d_of in SO; cbn [pr client_t phantom_t tmo src dst get] in SO.
+      all: destruct (r_proto r); try discriminate.
+      all: unfold session_new in SO.
+      all: repeat match type of SO with context [match ?x with _ => _ end] => destruct x; try discriminate end.
+      all: inversion SO; reflexivity. }
+    rewrite T. lia.
+  - rewrite (announce_in_vain r o ACC) in H. discriminate.
+Qed.
+
+(* ---- the pubsub loop ---- *)
+Definition pmsgs (h : list (N * pevent)) : list (N * devent) :=
+  flat_map (fun te => match snd te with PMsg m => [(fst te, EMsg m)] | _ => [] end) h.
+
+Lemma pubsub_loop_is_handler h : forall st, prun st h = drun st (pmsgs h).
+Proof.
+  induction h as [|[t e] h IH]; intros st; cbn; [reflexivity|].
+  destruct e; cbn; apply IH.
+Qed.
